@@ -216,6 +216,95 @@ impl Driver for BgzfDriver {
     }
 }
 
+/// BGZF through the multithreaded writer / reader (rayon pool of the process).
+pub struct BgzfMtDriver;
+
+fn bgzf_mt_write(doc: &Doc, sink: Box<dyn crate::io_adv::faulty::DynSink>) -> io::Result<()> {
+    let Doc::Bytes { payload, flushes, level } = doc else { return Err(invalid("wrong doc")) };
+    let data = payload.expand();
+    let mut b = bgzf::io::multithreaded_writer::Builder::default();
+    if let Some(l) = level {
+        if let Some(cl) = bgzf::io::writer::CompressionLevel::new(*l) {
+            b = b.set_compression_level(cl);
+        }
+    }
+    let mut w = b.build_from_writer(sink);
+    let mut points: Vec<usize> = flushes.iter().map(|p| (*p as usize % 1001) * data.len() / 1000).collect();
+    points.sort_unstable();
+    let mut off = 0;
+    // after the first error only drop the writer (further calls are outside what it promises)
+    let res = (|| -> io::Result<()> {
+        for p in points {
+            w.write_all(&data[off..p])?;
+            w.flush()?;
+            off = p;
+        }
+        w.write_all(&data[off..])?;
+        w.finish()?;
+        Ok(())
+    })();
+    drop(w);
+    res
+}
+
+impl Driver for BgzfMtDriver {
+    fn name(&self) -> &'static str {
+        "bgzf-mt"
+    }
+    fn family(&self) -> Family {
+        Family::Bgzf
+    }
+    fn is_bgzf(&self) -> bool {
+        true
+    }
+    fn doc(&self, tier: Tier) -> BoxedStrategy<Doc> {
+        BgzfDriver.doc(tier)
+    }
+    fn write(&self, doc: &Doc, sink: &mut dyn Write) -> io::Result<()> {
+        let s = crate::io_adv::sink::SyncSink::new();
+        bgzf_mt_write(doc, Box::new(s.clone()))?;
+        sink.write_all(&s.bytes())
+    }
+    fn write_owned(&self, doc: &Doc, sink: Box<dyn crate::io_adv::faulty::DynSink>) -> Option<io::Result<()>> {
+        Some(bgzf_mt_write(doc, sink))
+    }
+    fn read(&self, data: &Arc<Vec<u8>>, d: &Delivery, _doc: &Doc, opts: &ReadOpts) -> (Transcript, SrcStats) {
+        let (src, st) = open_read(data, d);
+        let mut tx = Tx::new(opts);
+        let mut r = bgzf::io::MultithreadedReader::new(src);
+        let mut buf = vec![0u8; opts.bgzf_buf.max(1)];
+        let mut h: u64 = 0xcbf29ce484222325;
+        let mut total = 0usize;
+        let limit = data.len().saturating_mul(1100).saturating_add(1 << 20);
+        let mut end = loop {
+            match r.read(&mut buf) {
+                Ok(0) => break Ev::Eof,
+                Ok(n) => {
+                    for b in &buf[..n] {
+                        h ^= *b as u64;
+                        h = h.wrapping_mul(0x100000001b3);
+                    }
+                    total += n;
+                    if total > limit {
+                        break Ev::Runaway;
+                    }
+                }
+                Err(e) => break err_ev("read", &e),
+            }
+        };
+        tx.push(Ev::Bytes(h, total));
+        tx.push(Ev::Vpos(u64::from(r.virtual_position())));
+        // frame-level errors surface from finish() by design
+        if let Err(e) = r.finish() {
+            if matches!(end, Ev::Eof) {
+                end = err_ev("finish", &e);
+            }
+        }
+        tx.push(end);
+        (tx.t, st)
+    }
+}
+
 // ---------------------------------------------------------------------------------------------
 // alignment formats
 
@@ -294,13 +383,18 @@ pub fn write_bam(d: &AlnDoc, sink: &mut dyn Write) -> io::Result<()> {
         }
     }
     w.try_finish()?;
+    // `try_finish` followed by drop would write a second EOF block from `Drop` (which cannot
+    // report a failure); take the sink back instead, so that every sink call belongs to an
+    // explicit writer call
+    let _ = w.into_inner().into_inner();
     Ok(())
 }
 
 impl Driver for BamDriver {
     fn name(&self) -> &'static str {
         match (self.raw, self.eager) {
-            (true, _) => "bam-raw",
+            (true, false) => "bam-raw",
+            (true, true) => "bam-raw-eager",
             (false, true) => "bam-eager",
             (false, false) => "bam",
         }
@@ -319,7 +413,7 @@ impl Driver for BamDriver {
     }
     fn read(&self, data: &Arc<Vec<u8>>, d: &Delivery, _doc: &Doc, opts: &ReadOpts) -> (Transcript, SrcStats) {
         if self.raw {
-            return read_bam_raw(data, d, opts);
+            return read_bam_raw(data, d, opts, self.eager);
         }
         let (src, st) = open_read(data, d);
         let mut tx = Tx::new(opts);
@@ -404,7 +498,7 @@ impl Driver for BamDriver {
 }
 
 /// Uncompressed BAM stream through the lazy record reader (+ conversion to `RecordBuf`).
-fn read_bam_raw(data: &Arc<Vec<u8>>, d: &Delivery, opts: &ReadOpts) -> (Transcript, SrcStats) {
+fn read_bam_raw(data: &Arc<Vec<u8>>, d: &Delivery, opts: &ReadOpts, eager: bool) -> (Transcript, SrcStats) {
     let (src, st) = open_read(data, d);
     let mut tx = Tx::new(opts);
     let mut r = bam::io::Reader::from(src);
@@ -416,6 +510,30 @@ fn read_bam_raw(data: &Arc<Vec<u8>>, d: &Delivery, opts: &ReadOpts) -> (Transcri
         }
     };
     tx.push(Ev::Header(sam_header_text(&header)));
+    if eager {
+        let mut rec = sam::alignment::RecordBuf::default();
+        loop {
+            match r.read_record_buf(&header, &mut rec) {
+                Ok(0) => {
+                    tx.push(Ev::Eof);
+                    break;
+                }
+                Ok(_) => {
+                    if opts.sweep {
+                        sweep_alignment_record(&header, &rec);
+                    }
+                    if !tx.push(Ev::Record(format!("{rec:?}"))) {
+                        break;
+                    }
+                }
+                Err(e) => {
+                    tx.push(err_ev("record", &e));
+                    break;
+                }
+            }
+        }
+        return (tx.t, st);
+    }
     let mut rec = bam::Record::default();
     loop {
         match r.read_record(&mut rec) {
@@ -860,6 +978,7 @@ pub fn write_bcf(d: &VarDoc, sink: &mut dyn Write) -> io::Result<()> {
         }
     }
     w.try_finish()?;
+    let _ = w.into_inner().into_inner();
     Ok(())
 }
 
@@ -1509,7 +1628,9 @@ impl Driver for IndexDriver {
                 let ix = build_linear_index(d, true)?;
                 let mut w = tabix::io::Writer::new(sink);
                 w.write_index(&ix)?;
-                w.try_finish()
+                w.try_finish()?;
+                let _ = w.into_inner().into_inner();
+                Ok(())
             }
             (IndexKind::Csi, Doc::BinIndex(d)) => {
                 let ix = build_binned_index(d)?;
@@ -1616,9 +1737,11 @@ where
 pub fn all() -> Vec<Box<dyn Driver>> {
     vec![
         Box::new(BgzfDriver),
+        Box::new(BgzfMtDriver),
         Box::new(BamDriver { eager: false, raw: false }),
         Box::new(BamDriver { eager: true, raw: false }),
         Box::new(BamDriver { eager: false, raw: true }),
+        Box::new(BamDriver { eager: true, raw: true }),
         Box::new(SamDriver { bgzipped: false }),
         Box::new(SamDriver { bgzipped: true }),
         Box::new(CramDriver),
